@@ -487,7 +487,7 @@ impl Response {
                 {
                     let content_length = parse_unsigned(&content_length, 10)
                         .map_err(Error::InvalidContentLength)?;
-                    self.body.reserve(content_length);
+                    self.body.reserve(content_length.min(raw_message.len()));
                     Ok((
                         ParseStatusInternal::CompletePart,
                         ResponseState::FixedBody(content_length),
